@@ -1,6 +1,8 @@
 import MpireModel.Model.History
 import MpireModel.Model.Worker
 import MpireModel.Proofs.History
+import MpireModel.Model.ParamFlow
+import MpireModel.Proofs.ParamFlow
 /-!
 # C10 — keep_alive: same workers, but each call runs with its own parameters
 -/
@@ -39,5 +41,41 @@ not re-run and worker_exit is deferred to the lethal pill (worker transducer). -
 example : Mpire.Worker.userActs (Mpire.Worker.run { hasInit := true, hasExit := true } {}
     [.chunk 1 [⟨0, .ok⟩], .pillNL, .newParams (some { hasInit := true, hasExit := true, lifespan := some 5 }),
      .chunk 2 [⟨1, .ok⟩], .pillNL, .pill]) = [(.init, 0), (.task, 0), (.task, 1), (.exit, 0)] := by decide +kernel
+
+/-! ## the parameters of a call reach the workers that run its tasks (Model/ParamFlow.lean) -/
+section ParamFlow
+open Mpire.ParamFlow
+
+/-- Every chunk is run with the parameters of the call it belongs to: for every number of calls on the kept-alive workers, whichever
+of them change the parameters (a pill into every queue) or keep them (no pill), however the workers' takes interleave with the
+dispatcher, whenever a slot is restarted (the new instance starts with what the pool has recorded and still meets what is queued). -/
+theorem chunk_runs_with_its_calls_params (s : Sys) (h : Reachable s) (c : Nat) (p : PId) (hm : (c, p) ∈ s.log) :
+    s.calls[c]? = some p :=
+  Mpire.Proofs.ParamFlow.chunk_runs_with_its_calls_params s h c p hm
+
+/-- In every reachable state: the pool has recorded the parameters of the latest call; every worker will meet every queued chunk
+with the parameters of the chunk's call and ends up with the recorded ones; queued chunks belong to the latest call. -/
+theorem queues_consistent (s : Sys) (h : Reachable s) :
+    (∀ r, s.recorded = some r → s.calls.getLast? = some r) ∧
+    (∀ w ∈ s.workers, consistent s.calls w.cur w.queue ∧ (∀ r, s.recorded = some r → finalParam w.cur w.queue = r)) ∧
+    (∀ w ∈ s.workers, ∀ c, Item.chunk c ∈ w.queue → c + 1 = s.calls.length) :=
+  let i := Mpire.Proofs.ParamFlow.reach_inv s h
+  ⟨i.1, i.2.2.1, i.2.2.2.1⟩
+
+/-- a slot restarted at any moment catches up: after working through its queue the new instance holds the recorded parameters -/
+theorem restarted_worker_catches_up (s s' : Sys) (k : Nat) (h : Reachable s) (hs : step s (.restart k) = some s') :
+    ∀ w ∈ s'.workers, ∀ r, s'.recorded = some r → finalParam w.cur w.queue = r :=
+  Mpire.Proofs.ParamFlow.restarted_worker_catches_up s s' k h hs
+
+/-- a call with the recorded parameters sends nothing and changes nothing about the workers -/
+theorem same_params_no_pill (s s' : Sys) (p : PId) (hr : s.recorded = some p) (h : step s (.startCall p) = some s') :
+    s'.workers = s.workers ∧ s'.recorded = some p :=
+  Mpire.Proofs.ParamFlow.same_params_no_pill s s' p hr h
+
+/-- non-vacuity: two calls with different parameters on two kept-alive workers, one restarted in between; the log is as claimed -/
+example : (run {} [.fresh 2 7, .dispatch 0, .dispatch 1, .take 0, .endCall, .take 1, .take 0, .take 1, .startCall 9, .take 0, .dispatch 0,
+    .restart 1, .dispatch 1, .take 0, .take 1, .take 1]).map (·.log) = some [(0, 7), (0, 7), (1, 9), (1, 9)] := by decide +kernel
+
+end ParamFlow
 
 end Mpire.C10
